@@ -83,6 +83,7 @@ pub struct PanicInfo {
 
 thread_local! {
     static LAST_PANIC: RefCell<Option<(String, u32, String)>> = RefCell::new(None);
+    static GUARD_DEPTH: std::cell::Cell<u32> = std::cell::Cell::new(0);
 }
 
 static HOOK: Once = Once::new();
@@ -99,6 +100,10 @@ pub fn install_panic_hook() {
             } else {
                 "?".to_string()
             };
+            if GUARD_DEPTH.with(|g| g.get()) == 0 {
+                // a panic of the harness itself: never silent
+                eprintln!("harness panic at {}:{}: {}", file, line, msg);
+            }
             LAST_PANIC.with(|l| *l.borrow_mut() = Some((file, line, msg)));
         }));
     });
@@ -114,7 +119,9 @@ pub fn guarded<T>(budget: u64, f: impl FnOnce() -> T) -> Result<T, PanicInfo> {
     install_panic_hook();
     verif_hooks::reset(budget);
     LAST_PANIC.with(|l| *l.borrow_mut() = None);
+    GUARD_DEPTH.with(|g| g.set(g.get() + 1));
     let r = catch_unwind(AssertUnwindSafe(f));
+    GUARD_DEPTH.with(|g| g.set(g.get() - 1));
     match r {
         Ok(v) => Ok(v),
         Err(_) => {
